@@ -78,8 +78,9 @@ def run_case(case, strict=False):  # pylint: disable=unused-argument,too-many-br
         if not it.active_before:
             cl.add("hook_after_print_end")
         if it.closing:
-            if not (isinstance(it.raw, tuple) and len(it.raw) == 2 and it.raw[1] is None and isinstance(it.raw[0], list) and it.raw[0]):
-                out.append(F("c15_shape", it, "afterPrintDone with an open episode returned %r, expected (prefix list, None)" % (it.raw,)))
+            # OctoPrint's contract: (prefix, postfix[, variables]), each None, a string or a list; the statement wants a prefix
+            if not (isinstance(it.raw, tuple) and len(it.raw) >= 2 and core.script_lines(it.raw[0]) and not core.script_lines(it.raw[1])):
+                out.append(F("c15_shape", it, "afterPrintDone with an open episode returned %r, expected a non-empty prefix and no postfix" % (it.raw,)))
                 continue
             pf, pu = asserts.last_snap(it), it.u_after
             for ax, name in ((X, "X"), (Y, "Y"), (Z, "Z"), (E, "E")):
